@@ -62,6 +62,8 @@ def make_form(rng, i, klass):
                 f.entities["update_if"] = "true()"
             for r in [r for r in f.survey if r.kind == "q" and (r.type or "").split(" ")[0] in ("text", "integer")][:2]:
                 r.cells["save_to"] = "p" + str(abs(hash(r.name)) % 89)
+            if rng.random() < 0.4 and "public_key" not in f.settings:
+                f.settings["omit_instanceID"] = rng.choice(["yes", "true"])  # no instanceID: the entity declaration and its namespace are still due
         for r, anc in f.walk():
             if r.kind == "q" and rng.random() < 0.3 and (r.type or "").split(" ")[0] in gen.INPUT_TYPES:
                 r.cells["bind::esri:fieldType"] = "esriFieldTypeString"
@@ -174,6 +176,8 @@ def run_shard(ctx):
         form = make_form(rng, i, klass)
         sig = common.feature_sig(form)
         fmt = "dict"
+        if klass == "text" and i % 8 == 1:
+            fmt = "xlsx"  # hostile text through a spreadsheet container in the quick tier too
         if ctx.tier == "thorough":
             fmt = fmts_thorough[(i // 4) % len(fmts_thorough)]
             if fmt in ("md",) and not all(render.md_ok_cell(c) for _, (h, rows) in form.to_sheets().items() for r in rows for c in r if isinstance(c, str)):
